@@ -3,7 +3,7 @@ from typing import Union
 from pydbml.classes import Column, Enum, Expression
 from pydbml.renderer.dbml.default.renderer import DefaultDBMLRenderer
 from pydbml.renderer.dbml.default.utils import comment_to_dbml, note_option_to_dbml, quote_string, prepare_text_for_dbml
-from pydbml.renderer.dbml.default.utils import quote_name_if_needed, quote_type_if_needed
+from pydbml.renderer.dbml.default.utils import quote_name_if_needed, quote_property_key, quote_type_if_needed
 from pydbml.renderer.sql.default.utils import get_full_name_for_sql
 
 
@@ -38,7 +38,7 @@ def render_options(model: Column) -> str:
     if model.properties:
         if model.table and model.table.database and model.table.database.allow_properties:
             for key, value in model.properties.items():
-                options.append(f'{quote_name_if_needed(key)}: {quote_string(value)}')
+                options.append(f'{quote_property_key(key)}: {quote_string(value)}')
 
     if options:
         return f' [{", ".join(options)}]'
